@@ -11,7 +11,17 @@ Generator : (1) PRODUCT - the complete documented spelling table ({"",o,out,1} x
             (a "compatible" mode that fills each of stdin/stdout/stderr at most once, and a free, mostly
             conflicting mode), whitespace variants (`> f`, `>f`, `>  f`, tab), targets written plain / quoted /
             @() / $VAR / "$VAR", target names that are operator parts (`p`, `out`, `2` ...), plus a fixed list of
-            malformed operators x kind x capture form.
+            malformed operators x kind x capture form.  (3) ALIAS BODIES AND STAGE DECORATIONS (round 2) - what a stage
+            *is*: besides the external helper and callable aliases that write to their stream arguments, ExecAliases
+            (`a && b`, `a; b`, `a | b`, alias-calling-alias, alias-calling-alias-that-runs-a-program), a callable alias
+            written in xonsh whose body emits through any sequence of stdout.write / print() / bare command /
+            `![...]` / execx() / nested alias (`cb TAG wpchxnm`), its @unthreadable twin (`ub`), and a slow alias that
+            still writes after the downstream stage has finished (`sl`); a stage that ignores its stdin (`... | true`);
+            stage decorations: one or two `$VAR=value` prefixes on any stage, `@thread` / `@unthread` /
+            `@error_ignore` decorator aliases.  Product of 13 body variants x 17 routings (none, >, >>, e>, e>>, a>, a>>,
+            e>o, o>e, a>p, e>p, two-file, file+e>p, file+merge, <) x 7 decorations x 7 (position, neighbour) x 5 capture
+            forms (complete in thorough, 5.5 % in quick), and the same dimensions drawn freely in part (2).  File
+            targets glued to the operator whose name begins with an operator part (`2>out.txt`, `a>path`).
 Oracle    : a routing model written from docs/tutorial.rst "Input/Output Redirection" (not from specs.py):
             stage i writes `O<i>` to stdout and `E<i>` to stderr, stages that read stdin echo every line as
             `I<i>:<line>`.  After the run every tagged line must be found exactly once, and only, in the place the
@@ -23,13 +33,17 @@ Oracle    : a routing model written from docs/tutorial.rst "Input/Output Redirec
             (metamorphic, compared inside each product group).  Where the tutorial leaves two readings open both
             are accepted (see model()).  A failure is reported only when it reproduces on re-execution; the exact
             symptoms of recorded findings are predicted by the model (defects=...) and attributed narrowly.
+            Everything an alias body emits carries its own tag (O<stage><emitter letter>) and must follow the stage's
+            routing (docs/callable_aliases.rst "Capturing and Stream Redirection"); decorations never change routing,
+            @thread / @unthread only decide whether an alias may stand in a pipeline.  Stages upstream of a stage that
+            ignores its stdin may be cut short by SIGPIPE / EPIPE: their lines may be missing, never misplaced.
 Terminal  : "the terminal" is file descriptor 1 (stdout) and 2 (stderr) of the xonsh process.  Around every
             execution two O_APPEND temp files are dup2'ed onto fds 1 and 2 and sys.stdout / sys.stderr are
             replaced by write-through text wrappers over those same fds, so output of real children (inherited
             fds), of aliases (Python streams) and of xonsh's own tee of captured output all land in the same
             two files.  fd 0 is /dev/null.
 Hang bound: 10 s per execution (typical 3-15 ms), SIGALRM re-armed every 2 s, BaseException subclass; a hang is a
-            recorded failure; after 4 hangs a worker stops (its process is full of stuck threads) and counts the rest
+            recorded failure; after 6 hangs a worker stops (its process is full of stuck threads) and counts the rest
             of its share as inconclusive.
 """
 
@@ -54,11 +68,14 @@ HOOKS = False
 RULE = ("(1) product: documented redirect spelling x stage kind (external / threaded alias / unthreadable alias) x pipeline "
         "position x neighbour kind x $THREAD_SUBPROCS x capture form x target state, and every ordered pair of operator classes on "
         "one stage x kind x position x capture form; complete in thorough, seeded sample in quick; (2) generated pipelines of 1-3 "
-        "stages with 0-3 redirects per stage, whitespace and target-form variants, malformed operators; every case has >= 1 redirect "
-        "or pipe, non-trivial = every case; distinct = hash of the case (rendered source + configuration)")
+        "stages with 0-3 redirects per stage, whitespace and target-form variants, malformed operators; (3) product: alias-body "
+        "stage (ExecAlias && / ; / | / alias-in-alias, callable alias emitting by write / print / command / ![ ] / execx / nested "
+        "alias, @unthreadable twin, slow alias) x routing x decoration ($VAR=value prefixes, @thread / @unthread / @error_ignore) x "
+        "position x neighbour x capture form; the same stage kinds and decorations are drawn in (2); every case has >= 1 redirect, "
+        "pipe, capture or alias body, non-trivial = every case; distinct = hash of the case (rendered source + configuration)")
 
 HANG_S = 10
-MAX_HANGS = 4          # per worker; afterwards the worker's remaining cases are counted as inconclusive
+MAX_HANGS = 6          # per worker; afterwards the worker's remaining cases are counted as inconclusive
 # A rejected command (conflict / unopenable target) must never have *delivered* anything.  Whether it may already have
 # created an (empty) write target or truncated a `>` target it was asked to overwrite is not stated by the property text
 # ("reported as errors rather than silently misrouted") nor by the tutorial; DESIGN.md section 2 asked for "all targets
@@ -93,7 +110,7 @@ X_KINDS = frozenset(EXEC_ALIASES)
 # `sl TAG [in]`: threaded alias that writes O<TAG>, sleeps SLOW_S, then writes E<TAG> (output after the downstream
 # stage may have finished); it survives a closed stdout pipe.
 EMITTERS = "wpchxnm"
-PY_CLASSES = frozenset("wpn")       # delivered through the alias' Python-level streams
+PY_CLASSES = frozenset("wpnq")      # delivered through the alias' Python-level streams (q = print() in a nested alias)
 BODY_KINDS = ("cb", "ub", "sl") + tuple(sorted(X_KINDS))
 UNTHREADABLE_KINDS = ("unt", "ub")
 DECOS = ("@thread", "@unthread", "@error_ignore")
@@ -299,29 +316,54 @@ def _unthreaded_last(st, ts):
 
 
 def stage_emits(st, i, in_lines):
-    """What stage i writes: [(stream "o"/"e", line, emitter class)].  Classes: proc = an external program's own fds,
-    w/p/n = Python-level streams of an alias, c/h/x/m = commands run inside an alias body, cn = the stderr of a
-    non-last command of a pipeline inside an alias body."""
+    """What stage i writes: [(stream "o"/"e", line, emitter class, emitter ordinal)].  Classes: proc = an external
+    program's own fds, w/p/n/q = Python-level streams of an alias (q = print() inside a nested alias), c/h/x/m = commands
+    run inside an alias body, cn = the stderr of a non-last command of a pipeline inside an alias body.  The ordinal counts the emitters of the body in the
+    order they run (-1 = the echo of stdin, which precedes them)."""
     kind, t = st["kind"], str(i)
     if kind == "ext":
-        return [("o", "I%s:%s" % (t, ln), "proc") for ln in in_lines] + [("o", "O" + t, "proc"), ("e", "E" + t, "proc")]
-    out = [("o", "I%s:%s" % (t, ln), "w") for ln in in_lines]
+        return [("o", "I%s:%s" % (t, ln), "proc", -1) for ln in in_lines] + [("o", "O" + t, "proc", 0), ("e", "E" + t, "proc", 0)]
+    out = [("o", "I%s:%s" % (t, ln), "w", -1) for ln in in_lines]
     if kind in ("thr", "unt", "sl"):
-        return out + [("o", "O" + t, "w"), ("e", "E" + t, "w")]
+        return out + [("o", "O" + t, "w", 0), ("e", "E" + t, "w", 0)]
     if kind in ("cb", "ub"):
-        for L in st.get("em") or "w":
+        for j, L in enumerate(st.get("em") or "w"):
             tag = t + ("mc" if L == "m" else L)
-            out += [("o", "O" + tag, L), ("e", "E" + tag, L)]
+            out += [("o", "O" + tag, L, j), ("e", "E" + tag, L, j)]
         return out
     if kind in ("xand", "xseq"):
-        return [("o", "O%sa" % t, "c"), ("e", "E%sa" % t, "c"), ("o", "O%sb" % t, "c"), ("e", "E%sb" % t, "c")]
+        return [("o", "O%sa" % t, "c", 0), ("e", "E%sa" % t, "c", 0), ("o", "O%sb" % t, "c", 1), ("e", "E%sb" % t, "c", 1)]
     if kind == "xpipe":
-        return [("o", "I%sb:O%sa" % (t, t), "c"), ("e", "E%sa" % t, "cn"), ("o", "O%sb" % t, "c"), ("e", "E%sb" % t, "c")]
+        return [("o", "I%sb:O%sa" % (t, t), "c", 0), ("e", "E%sa" % t, "cn", 0), ("o", "O%sb" % t, "c", 0), ("e", "E%sb" % t, "c", 0)]
     if kind == "xali":
-        return [("o", "O%sa" % t, "n"), ("e", "E%sa" % t, "n"), ("o", "O%sb" % t, "c"), ("e", "E%sb" % t, "c")]
+        return [("o", "O%sa" % t, "n", 0), ("e", "E%sa" % t, "n", 0), ("o", "O%sb" % t, "c", 1), ("e", "E%sb" % t, "c", 1)]
     if kind == "xnest":
-        return [("o", "O%snc" % t, "c"), ("e", "E%snc" % t, "c"), ("o", "O%snp" % t, "p"), ("e", "E%snp" % t, "p")]
+        return [("o", "O%snc" % t, "c", 0), ("e", "E%snc" % t, "c", 0), ("o", "O%snp" % t, "q", 1), ("e", "E%snp" % t, "q", 1)]
     raise common.HarnessError("bad stage kind %r" % kind)
+
+
+def _n_emitters(st):
+    return 1 + max(e[3] for e in stage_emits(st, 0, []))
+
+
+def _certain_overlap(stages, i, ts):
+    """Stage i (a threaded alias) starts while a slow threaded alias upstream is still running and can only emit
+    after that one has finished (it drains its stdin first, as do all stages in between)."""
+    if i == 0 or not _drains(stages[i]):
+        return False
+    for k in range(i):
+        if stages[k]["kind"] == "sl" and _kinfo(stages[k], ts) == (True, True) and all(_drains(stages[m]) for m in range(k + 1, i + 1)):
+            return True
+    return False
+
+
+def _racy_stages(case):
+    """threaded alias stages whose body print()s, in a pipeline that runs another threaded alias at the same time"""
+    ts = bool(case.get("ts", True))
+    thr = [j for j, st in enumerate(case["stages"]) if _kinfo(st, ts) == (True, True)]
+    if len(thr) < 2:
+        return []
+    return [j for j in thr if _body_classes(case["stages"][j]) & {"p", "q"}]
 
 
 _MERGE_SPELLINGS = sorted((sp for sp, sem in TABLE.items() if sem in NO_TARGET), key=lambda x: (-len(x), x))
@@ -342,7 +384,8 @@ def glued(r):
     return None
 
 
-def model(case, posix_order=False, explicit_wins=False, nonlast_err_captured=False, o2e_literal=False, defects=frozenset()):
+def model(case, posix_order=False, explicit_wins=False, nonlast_err_captured=False, o2e_literal=False, defects=frozenset(),
+          race=None):
     """-> {"error": True} or {"places": {place: [lines]}, "files": {name: lines-or-None}, "append": {name: ninit}}.
 
     `defects` switches on the routing of recorded findings (see FINDINGS) so that a failing case can be attributed
@@ -355,6 +398,8 @@ def model(case, posix_order=False, explicit_wins=False, nonlast_err_captured=Fal
       nonlast_err_captured in !( ) the unredirected stderr of non-last stages is part of .err instead of the terminal
       o2e_literal          "send stdout to stderr" read literally: o>e sends stdout to the *shell's* stderr place even when
                            the command's own stderr is redirected to a file on the same line
+    `race` ({stage: emitter ordinal}, only with defect C07-F14): from that emitter on the body output of the stage went
+    to the shell's own fds.
 
     Stage decorations (`$VAR=value` prefixes, `@error_ignore`) have no influence on routing; `@thread` / `@unthread`
     only decide whether an alias runs threaded (_kinfo).  Everything an alias body emits (stage_emits) belongs to the
@@ -375,7 +420,7 @@ def model(case, posix_order=False, explicit_wins=False, nonlast_err_captured=Fal
                 raise Undefined()       # `e>out`: the text *is* the merge operator, not `e>` + file "out"
     if "C07-F11" in defects:
         # the tokenizer reads `2>out.txt` as the merge operator `2>out` followed by the argument `.txt`
-        stages = [dict(st, redirs=[({"op": glued(r)[0]} if glued(r) else r) for r in st.get("redirs", [])]) for st in stages]
+        stages = _mistokenized(case)["stages"]
     if "C07-F8" in defects:
         return {"error": True, "why": "C07-F8", "exc_ok": ("TypeError", r"unhashable type: 'list'")}
     sinks = {}
@@ -518,32 +563,43 @@ def model(case, posix_order=False, explicit_wins=False, nonlast_err_captured=Fal
             in_lines = list(files[inp[1]] or [])
         if not _drains(st):
             in_lines = []           # an ExecAlias / a stage that ignores its stdin
-        # a stage whose reader does not consume the pipe can be cut short by SIGPIPE / EPIPE: whether its lines arrive
-        # is scheduling (`sl` is written to survive that)
-        fragile = (not last) and not _drains(stages[i + 1]) and kind != "sl"
-        for stream, line, cls in stage_emits(st, i, in_lines):
+        # When some later stage does not consume its stdin the pipeline can be over before this stage is: xonsh then
+        # closes the read ends of *all* connecting pipes and the stage is cut short by SIGPIPE / EPIPE at its next
+        # write - whether its lines arrive is scheduling (`sl` is written to survive that).
+        early_end = any(not _drains(stages[k]) for k in range(i + 1, n))
+        fragile = early_end and kind != "sl"
+        later_slow = any(stages[k]["kind"] == "sl" for k in range(i + 1, n))
+        raced_from, raced_cls = None, ()
+        if "C07-F14" in defects and alias and threaded:
+            # every alias thread swaps the process-wide sys.stdout / sys.stderr for the dispatcher and puts back what it
+            # found: the first alias of a pipeline to finish restores the *shell's* streams under the others
+            if _certain_overlap(stages, i, ts):
+                raced_from, raced_cls = 0, ("p",)
+            elif race and i in race:
+                raced_from, raced_cls = race[i], ("p", "q")
+        for stream, line, cls, ordinal in stage_emits(st, i, in_lines):
             sink = out if stream == "o" else err
             direct = ("term", 1 if stream == "o" else 2)
             if cls not in ("proc", "w"):
-                if alias and not threaded:
+                if raced_from is not None and ordinal >= raced_from and cls in raced_cls:
+                    sink = direct           # print() looks sys.stdout up when it is called
+                elif cls == "cn" and "C07-F13" in defects:
+                    sink = direct           # stderr of a non-last command of a pipeline inside the body is never captured
+                elif alias and not threaded:
                     if "C07-F12" in defects:
                         sink = direct       # ProcProxy does not redirect sys.stdout / sys.stderr for the alias body
                 elif cls == "cn":
-                    if "C07-F13" in defects:
-                        sink = direct       # stderr of a non-last command of a pipeline inside the body is never captured
+                    pass
                 elif cls not in PY_CLASSES and not inner_captured and "C07-F9" in defects:
                     sink = direct           # commands inside the body are not captured: they write to the shell's fds
-            if ("C07-F10" in defects and kind == "sl" and stream == "e" and line == "E%d" % i and not last
-                    and not _drains(stages[i + 1]) and sink[0] == "file"):
+            if "C07-F10" in defects and kind == "sl" and stream == "e" and line == "E%d" % i and early_end and sink[0] == "file":
                 # CommandPipeline._close_prev_procs closes the stage's stderr file before it joins the alias thread:
                 # what the alias writes after the downstream stages have finished is lost
-                if sink[1] not in append_n:
-                    init = files[sink[1]] or []
-                    append_n[sink[1]] = len(init) if sink[2] == "a" else 0
-                    result_files[sink[1]] = list(init) if sink[2] == "a" else []
-                continue
-            if fragile:
-                optional.append(line)
+                if not later_slow:
+                    continue
+                optional.append(line)       # another slow stage downstream: which of the two ends first is scheduling
+            if fragile or (ordinal == -1 and line.split(":", 1)[1] in optional):
+                optional.append(line)       # (the echo of a line that may be missing may be missing)
             if sink[0] == "file":
                 name, mode = sink[1], sink[2]
                 if name not in append_n:
@@ -576,14 +632,23 @@ def expectations(case, defects=frozenset()):
     """All accepted readings (deduplicated).  Raises Undefined."""
     outs = []
     multi = sum(len(st.get("redirs", [])) for st in case["stages"]) > 1
+    races = [None]
+    if "C07-F14" in defects:
+        racy = _racy_stages(case)
+        if racy:
+            races = [dict(zip(racy, cut)) for cut in itertools.product(
+                *[range(_n_emitters(case["stages"][j]), -1, -1) for j in racy])][:128]
     for po, ew, ne, ol in itertools.product((False, True), repeat=4):
         if ne and not (case["cap"] == "object" and len(case["stages"]) > 1):
             continue
         if (po or ol) and not multi:
             continue
-        m = model(case, posix_order=po, explicit_wins=ew, nonlast_err_captured=ne, o2e_literal=ol, defects=defects)
-        if m not in outs:
-            outs.append(m)
+        for race in races:
+            m = model(case, posix_order=po, explicit_wins=ew, nonlast_err_captured=ne, o2e_literal=ol, defects=defects, race=race)
+            if m not in outs:
+                outs.append(m)
+            if m.get("error"):
+                break
     return outs
 
 
@@ -591,7 +656,7 @@ def expectations(case, defects=frozenset()):
 # recorded findings: shape predicates (which cases a defect can touch at all)
 
 FINDINGS = ("C07-F1", "C07-F2", "C07-F3", "C07-F4", "C07-F5", "C07-F6", "C07-F7", "C07-F8", "C07-F9", "C07-F10", "C07-F11",
-            "C07-F12", "C07-F13")
+            "C07-F12", "C07-F13", "C07-F14")
 
 
 def _stage_sems(st):
@@ -600,11 +665,30 @@ def _stage_sems(st):
 
 def _body_classes(st):
     """emitter classes of the stage other than an external program's own fds and the alias stream arguments"""
-    return {cls for _s, _l, cls in stage_emits(st, 0, []) if cls not in ("proc", "w")}
+    return {e[2] for e in stage_emits(st, 0, []) if e[2] not in ("proc", "w")}
+
+
+def _mistokenized(case):
+    """the case as the tokenizer reads it (C07-F11): a glued file redirect becomes the merge / pipe operator"""
+    stages = []
+    for st in case["stages"]:
+        st2 = dict(st, redirs=[({"op": glued(r)[0]} if glued(r) else r) for r in st.get("redirs", [])])
+        if any((glued(r) or (None, ""))[1] for r in st.get("redirs", [])):
+            st2.pop("noread", None)     # the rest of the name arrives as one more argument: the helpers then read stdin
+        stages.append(st2)
+    return dict(case, stages=stages)
 
 
 def applicable(case):
     """Finding ids whose *shape* the case has.  Attribution additionally needs the exact symptom."""
+    out = _applicable(case)
+    if "C07-F11" in out:
+        # what the line is read as can have the shape of further findings (`$[atag 0 2>out.txt]` = `$[atag 0 e>o]`)
+        out += [fid for fid in _applicable(_mistokenized(case)) if fid not in out]
+    return out
+
+
+def _applicable(case):
     out = []
     stages = case["stages"]
     n = len(stages)
@@ -639,15 +723,17 @@ def applicable(case):
             and (_body_classes(last) - PY_CLASSES - {"cn"})):
         out.append("C07-F9")
     # F10: a slow threaded alias with stderr to a file, followed by a stage that does not wait for its input
-    if any(s["kind"] == "sl" and i < n - 1 and not _drains(stages[i + 1]) and (set(_stage_sems(s)) & {"err", "all"})
+    if any(s["kind"] == "sl" and any(not _drains(d) for d in stages[i + 1:]) and (set(_stage_sems(s)) & {"err", "all"})
            for i, s in enumerate(stages)):
         out.append("C07-F10")
     if any((glued(r) or (None, ""))[1] != "" for _i, _k, r in iter_redirs(case)):
         out.append("C07-F11")
     if any(u and _body_classes(s) for u, s in zip(unthr, stages)):
         out.append("C07-F12")
-    if any(a and t and "cn" in _body_classes(s) for (a, t), s in zip(kinfo, stages)):
+    if any(a and "cn" in _body_classes(s) for (a, _t), s in zip(kinfo, stages)):
         out.append("C07-F13")
+    if _racy_stages(case):
+        out.append("C07-F14")
     return out
 
 
@@ -687,6 +773,9 @@ def _mk_slow():
                     if not line.endswith("\n"):
                         line += "\n"
                     stdout.write("I%s:%s" % (t, line))
+        except (OSError, ValueError):
+            pass                # the pipeline is already over and xonsh has closed the pipe under the alias
+        try:
             stdout.write("O%s\n" % t)
             stdout.flush()
         except (OSError, ValueError):
@@ -837,9 +926,26 @@ def _quiesce(had_exc):
     import threading
     import time
 
+    stuck = _state.setdefault("stuck", set())
     for t in threading.enumerate():
-        if t is not threading.current_thread() and type(t).__name__ in ("ProcProxyThread", "PopenThread"):
+        if t is not threading.current_thread() and type(t).__name__ in ("ProcProxyThread", "PopenThread") and t.ident not in stuck:
             t.join(3.0)
+            if t.is_alive():
+                # a thread that xonsh left behind for good (e.g. an alias blocked on a pipe nobody will ever close):
+                # wait for it once, not again after every later case
+                _state["stuck_new"] = _state.get("stuck_new", 0) + 1
+                proc = getattr(t, "proc", None)
+                if proc is not None and hasattr(proc, "kill"):
+                    # a PopenThread polls its child 10 000 times a second for as long as the child lives (here: a
+                    # helper waiting for EOF on a pipe whose write end was leaked); kill the child so that the thread
+                    # can end and does not slow down every later case of this worker
+                    try:
+                        proc.kill()
+                    except Exception:  # noqa: BLE001
+                        pass
+                    t.join(1.0)
+                if t.is_alive():
+                    stuck.add(t.ident)
     if had_exc:
         t0 = time.time()
         while time.time() - t0 < 2.0:
@@ -918,10 +1024,27 @@ class _Terminal:
 _TAGGED = re.compile(r"^(I\d+[a-z]*:)*(O\d+[a-z]*|E\d+[a-z]*|P\d+[ab])$")
 
 
+_GLUED_TAGS = re.compile(r"^((?:I\d+[a-z]*:)*)((?:[OE]\d+[a-z]*){2,})$")
+_EMPTY_ECHO = re.compile(r"^(I\d+[a-z]*:)+$")
+
+
 def _lines(text):
+    """Non-empty lines.  Two writers on one sink (stdout and stderr merged, print() next to a command's tee) can
+    interleave between a text and its newline: `O1npE1nc` + an empty line.  The property is about where text ends up,
+    not about line atomicity, so such a line is split into its tags again (and the echo of the empty line dropped)."""
     if not text:
         return []
-    return [ln.rstrip("\r") for ln in text.replace("\r\n", "\n").split("\n") if ln.rstrip("\r") != ""]
+    out = []
+    for ln in text.replace("\r\n", "\n").split("\n"):
+        ln = ln.rstrip("\r")
+        if ln == "" or _EMPTY_ECHO.match(ln):
+            continue
+        m = _GLUED_TAGS.match(ln)
+        if m:
+            out.extend(m.group(1) + tag for tag in re.findall(r"[OE]\d+[a-z]*", m.group(2)))
+        else:
+            out.append(ln)
+    return out
 
 
 def _wipe(cwd):
@@ -1148,12 +1271,45 @@ def check_case(case):
     f, labels, obs = _check_once(case)
     if f is None or f.finding is not None:
         return f, labels, obs
+    confirmed = _state.setdefault("confirmed", set())
+    if f.kind != "hang" and f.bucket in confirmed:
+        # this symptom has already reproduced three times in a row in this worker: further cases with the same
+        # symptom are recorded without paying for two more executions each (and never become the representative)
+        f.detail = _UNCONFIRMED + f.detail
+        return f, labels, obs
     for _ in range(1 if f.kind == "hang" else 2):
         f2, l2, o2 = _check_once(case)
         if f2 is None or f2.finding is not None:
             _state["flaky"].append("%s: %s" % (f.kind, f.detail[:300]))
             return f2, l2 + ["flaky:" + f.kind], o2
+    if f.kind == "hang" and not os.environ.get("C07_CHILD") and not _hangs_in_fresh_process(case):
+        # after a hang this process is full of stuck threads and leaked pipes, so the second hang proves little: a hang
+        # is reported only when the same line also hangs in a fresh interpreter
+        _state["flaky"].append("hang (not in a fresh process): %s" % f.detail[:300])
+        return None, labels + ["flaky:hang"], obs
+    confirmed.add(f.bucket)
     return f, labels, obs
+
+
+def _hangs_in_fresh_process(case):
+    import subprocess
+
+    path = os.path.join(_state["scratch"], "hang-%d-%s.json" % (os.getpid(), common.h64(case_key(case))))
+    with open(path, "w") as fh:
+        json.dump({"kind": "hang", "case": common.jsonable(case, full=True)}, fh)
+    env = dict(os.environ, C07_CHILD="1")
+    try:
+        r = subprocess.run([sys.executable, os.path.join(common.VERIF, "run.py"), PROP, "--replay", path], env=env, cwd=common.VERIF,
+                           stdin=subprocess.DEVNULL, stdout=subprocess.PIPE, stderr=subprocess.STDOUT, timeout=8 * HANG_S)
+        out = r.stdout.decode("utf-8", "replace")
+    except subprocess.TimeoutExpired:
+        return True
+    finally:
+        try:
+            os.unlink(path)
+        except OSError:
+            pass
+    return "VIOLATION" in out and "kind=hang" in out
 
 
 def _check_once(case):
@@ -1168,6 +1324,9 @@ def _check_once(case):
               else "expect:error-or-placement"]
     if obs["noise"]:
         labels.append("terminal-noise")
+    if _state.pop("stuck_new", 0):
+        labels.append("thread-left-behind")
+        _state.setdefault("stuck_cases", []).append(render(case))
     obs["touched"] = 0
     if obs["exc"] == "HANG":
         _state["hangs"] = _state.get("hangs", 0) + 1
@@ -1198,14 +1357,30 @@ def classify(case, exp, obs, probs):
     """Narrow predicates of the recorded findings, evaluated on the failing case and its symptom: the case must have
     the finding's shape (applicable) AND the observation must be exactly what the model predicts with that defect
     (and, when several defects meet in one case, the smallest set of them) switched on."""
-    if obs is None or obs["exc"] == "HANG":
+    if obs is None:
+        return None
+    if obs["exc"] == "HANG":
+        if "C07-F11" in applicable(case):
+            # `err>1.txt 1>e` is read as `err>1` + `1>e`, a circular merge (no documented meaning, never generated on
+            # purpose); that xonsh does not return from it is a consequence of the mis-tokenization
+            try:
+                expectations(case, defects=frozenset(["C07-F11"]))
+            except Undefined:
+                return "C07-F11"
         return None
     app = applicable(case)
+    # open findings first: a symptom that an open finding explains is not blamed on a repaired one
+    is_open = _state.get("open", ())
+    app.sort(key=lambda fid: fid not in is_open)
     for size in range(1, len(app) + 1):
         for sub in itertools.combinations(app, size):
             try:
                 exps = expectations(case, defects=frozenset(sub))
             except Undefined:
+                if "C07-F11" in sub:
+                    # read the way the tokenizer reads it, the line combines operators to which the documentation gives
+                    # no meaning (`1>err.log e>p` = o>e + e>p): whatever happened, it happened to a mis-tokenized line
+                    return "C07-F11"
                 return None
             for e in exps:
                 if not compare(case, e, obs):
@@ -1341,6 +1516,7 @@ def pair_cases():
 def worker_pairs(arg):
     shard, nshards, seed, permille, scratch = arg
     _setup(scratch)
+    _state["confirmed"] = set()
     st = Stats()
     try:
         for ci, case in enumerate(pair_cases()):
@@ -1431,6 +1607,7 @@ def body_case(cell):
 def worker_bodies(arg):
     shard, nshards, seed, permille, scratch = arg
     _setup(scratch)
+    _state["confirmed"] = set()
     st = Stats()
     try:
         for ci, cell in enumerate(body_cells()):
@@ -1492,6 +1669,7 @@ def run_group(g, st):
 def worker_product(arg):
     shard, nshards, seed, permille, scratch = arg
     _setup(scratch)
+    _state["confirmed"] = set()
     st = Stats()
     try:
         for gi, g in enumerate(product_groups()):
@@ -1511,6 +1689,8 @@ def worker_product(arg):
 
 
 def _flush_flaky(st):
+    for x in _state.pop("stuck_cases", [])[:3]:
+        st.notes.append("a ProcProxyThread / PopenThread was still alive 3 s after the command returned (not judged here): %r" % x)
     fl = _state.get("flaky", [])
     st.inconclusive += len(fl)
     for x in fl[:3]:
@@ -1518,11 +1698,14 @@ def _flush_flaky(st):
     _state["flaky"] = []
 
 
+_UNCONFIRMED = "(same symptom as a case confirmed by re-execution; this one was executed once) "
+
+
 def _case_size(f):
     c = f.case
     if "pair" in c:
         return 1000
-    return len(render(c)) + 10 * len(c["stages"])
+    return len(render(c)) + 10 * len(c["stages"]) + (100000 if f.detail.startswith(_UNCONFIRMED) else 0)
 
 
 def _dedupe(failures):
@@ -1582,15 +1765,19 @@ def case_strategy(avoid=frozenset()):
                     deco = "@thread" if (not ts or kind in UNTHREADABLE_KINDS) else None
             if deco:
                 st["deco"] = deco
-            if i > 0 and kind in ("ext", "thr") and draw(hs.integers(0, 9)) == 0:
+            if i > 0 and kind == "ext" and draw(hs.integers(0, 19)) == 0:
                 st["noread"] = True         # `... | true`: a stage that ignores its stdin
             return st
 
         protos = [draw_stage(i) for i in range(n)]
         for i in range(1, n):
-            if protos[i - 1]["kind"] == "sl" and protos[i]["kind"] in ("ext", "thr") and draw(hs.booleans()):
+            if protos[i - 1]["kind"] == "sl" and protos[i]["kind"] == "ext" and draw(hs.booleans()):
                 protos[i]["noread"] = True
         kinds = [p_["kind"] for p_ in protos]
+        if any(_body_classes(p_) for p_ in protos):
+            # documented trade-off ($THREAD_SUBPROCS, $XONSH_CAPTURE_ALWAYS): with threading off xonsh cannot capture
+            # the commands an alias body runs, so alias bodies are only generated with the default setting
+            ts = True
         compatible = draw(hs.sampled_from([True, True, False]))
         stages = []
         counter = [0]
@@ -1712,6 +1899,7 @@ def check_generated(case):
 def worker_generated(arg):
     seed, n, scratch = arg
     _setup(scratch)
+    _state["confirmed"] = set()
     st = Stats()
 
     avoid = frozenset(_state["open"])
@@ -1745,7 +1933,7 @@ def worker_generated(arg):
             smaller = [g for g in st.failures if g.bucket == b and _case_size(g) < _case_size(f)]
             if smaller:
                 f = min(smaller, key=_case_size)
-            if f.finding or f.kind == "hang" or nmin >= 3 or _state.get("hangs", 0) >= MAX_HANGS or "pair" in f.case or any(r.get("raw") for _i, _k, r in iter_redirs(f.case)):
+            if f.finding or f.kind == "hang" or nmin >= 2 or _state.get("hangs", 0) >= MAX_HANGS or "pair" in f.case or any(r.get("raw") for _i, _k, r in iter_redirs(f.case)):
                 out.append(f)
                 continue
             nmin += 1
@@ -1754,7 +1942,7 @@ def worker_generated(arg):
                 g, _l, _o = check_generated(c)
                 return g is not None and g.bucket == _b
 
-            m = common.minimize(case_strategy(avoid), still, seed, min(n, 300), seconds=10)
+            m = common.minimize(case_strategy(avoid), still, seed, min(n, 300), seconds=6)
             if m is not None:
                 g, _l, _o = check_generated(m)
                 if g is not None and _case_size(g) <= _case_size(f):
@@ -1771,6 +1959,7 @@ def worker_malformed(arg):
     """Malformed operators (fixed list) x stage kind x capture form."""
     scratch = arg
     _setup(scratch)
+    _state["confirmed"] = set()
     st = Stats()
     try:
         for raw in MALFORMED:
@@ -1785,6 +1974,45 @@ def worker_malformed(arg):
         _clear_immutable()
     st.failures = _dedupe(st.failures)
     _flush_flaky(st)
+    return st
+
+
+def _abandon_stuck_threads():
+    """xonsh can leave a ProcProxyThread / PopenThread behind that never ends (blocked on a pipe whose other end was
+    leaked - the business of C09, noted here as 'thread-left-behind').  They are non-daemon threads, so the interpreter
+    would wait for them at exit for ever and the worker pool with it: take them off the list threading._shutdown()
+    waits for.  Harmless when the private attribute is missing (then only the old behaviour remains)."""
+    import threading
+
+    locks = getattr(threading, "_shutdown_locks", None)
+    for t in threading.enumerate():
+        if t is threading.current_thread() or type(t).__name__ not in ("ProcProxyThread", "PopenThread") or not t.is_alive():
+            continue
+        try:
+            lock = getattr(t, "_tstate_lock", None)
+            if locks is not None and lock is not None:
+                with threading._shutdown_locks_lock:
+                    locks.discard(lock)
+        except Exception:  # noqa: BLE001
+            pass
+
+
+def worker_all(arg):
+    import time
+
+    shard, nshards, seed, bpm, permille, ppm, gen_seed, per, scratch = arg
+    st = Stats()
+    parts = [("bodies", worker_bodies, (shard, nshards, seed, bpm, scratch)),
+             ("product", worker_product, (shard, nshards, seed, permille, scratch)),
+             ("pairs", worker_pairs, (shard, nshards, seed, ppm, scratch))]
+    if shard == 0:
+        parts.append(("malformed", worker_malformed, scratch))
+    parts.append(("generated", worker_generated, (gen_seed, per, scratch)))
+    for name, fn, a in parts:
+        t0 = time.time()
+        st.merge(fn(a).dump())
+        st.hist["worker-seconds:" + name] += int(round(time.time() - t0))
+    _abandon_stuck_threads()
     return st
 
 
@@ -1804,6 +2032,13 @@ def _replay_case(case):
                            finding=fid)
         return None
     f, _labels, _obs = check_generated(case)
+    if f is None and any(st["kind"] == "sl" for st in case["stages"]):
+        # a recorded case whose symptom needs two threads to overlap: on a heavily loaded machine the overlap can be
+        # missed once, so such a replay gets two more attempts before it counts as "no longer reproduces"
+        for _ in range(2):
+            f, _labels, _obs = check_generated(case)
+            if f is not None:
+                break
     return f
 
 
@@ -1834,6 +2069,19 @@ def self_check():
         raise common.HarnessError("model self-check 3 failed")
     if not one([{"kind": "ext", "redirs": [red(">", "a"), red(">", "b")]}])["error"]:
         raise common.HarnessError("model self-check 4 failed")
+    # round 2: an alias body's output follows the stage's routing, whatever emits it and whatever decorates the stage
+    m = one([{"kind": "xand", "envs": [["CV0", "'1'"]], "redirs": [red(">", "t0.txt")]}])
+    if m["error"] or m["files"]["t0.txt"] != ["O0a", "O0b"] or m["places"]["term2"] != ["E0a", "E0b"] or m["places"]["term1"]:
+        raise common.HarnessError("model self-check 5 failed: %r" % (m,))
+    m = one([{"kind": "ext", "redirs": []}, {"kind": "cb", "em": "cp", "deco": "@thread", "redirs": [red("e>", "t0.txt")]}], cap="object")
+    if m["error"] or m["files"]["t0.txt"] != ["E1c", "E1p"] or m["places"]["capout"] != ["I1:O0", "O1c", "O1p"] or m["places"]["term2"] != ["E0"]:
+        raise common.HarnessError("model self-check 6 failed: %r" % (m,))
+    if not one([{"kind": "ext", "redirs": []}, {"kind": "cb", "em": "w", "deco": "@unthread", "redirs": []}])["error"]:
+        raise common.HarnessError("model self-check 7 failed")
+    if render({"cap": "hidden", "ts": True, "stages": [{"kind": "ext", "redirs": []}, {"kind": "cb", "em": "cp", "envs": [["A", "'1'"], ["B", '"b"']],
+                                                          "deco": "@thread", "redirs": [red("e>", "t0.txt")]}]}) != \
+            "![vtag 0 | $A='1' $B=\"b\" @thread cb 1 cp in e> t0.txt]\n":
+        raise common.HarnessError("render self-check failed")
     if len(TABLE) != 8 + 6 + 6 + 12 + 12 + 2 + 3 + 1:
         raise common.HarnessError("spelling table has %d entries" % len(TABLE))
 
@@ -1861,30 +2109,31 @@ def main(run):
         nw = 16 if thorough else 12
         permille = 1000 if thorough else 500
         procs = max(1, min(nw, int(os.environ.get("VERIF_PROCS") or nw)))      # shards stay the same, only the parallelism changes
-        # part 3 first: alias bodies x decorations x routing x position x capture form
         bpm = 1000 if thorough else 55
-        common.pool_map(run, __name__, "worker_bodies", [(w, nw, run.seed, bpm, run.scratch) for w in range(nw)], procs=procs)
+        ppm = 1000 if thorough else 250
+        per = run.n(450, 28000)
+        # one pool: worker w runs shard w of the three products (alias bodies x decorations, spellings, operator pairs),
+        # worker 0 also the malformed list, then its share of the generated pipelines
+        common.pool_map(run, __name__, "worker_all",
+                        [(w, nw, run.seed, bpm, permille, ppm, common.worker_seed(run.seed, 50 + w), per, run.scratch) for w in range(nw)],
+                        procs=procs)
         run.extra["bodies_product"] = {"cases": sum(1 for _ in body_cells()), "sampled_permille": bpm,
                                        "variants": ["%s%s" % (k, ":" + e if e else "") for k, e in BODY_VARIANTS]}
-        common.pool_map(run, __name__, "worker_product", [(w, nw, run.seed, permille, run.scratch) for w in range(nw)], procs=procs)
         run.extra["product"] = {"groups": ngroups, "cases": ncases, "sampled_permille_of_groups": permille}
         if thorough:
             run.exhaustive = True
             run.extra["exhaustive_subspace"] = ("%d single-redirect cases: %d spellings (+ prefix `< f cmd`) x 20 (kind, position, neighbour, "
                                                 "THREAD_SUBPROCS) cells x 5 capture forms x 4 target states (file operators); plus every "
                                                 "ordered pair of the 11 operator classes on one stage x 9 (kind, position) x 5 capture "
-                                                "forms with hash-picked spellings" % (ncases, len(TABLE)))
-        ppm = 1000 if thorough else 250
-        common.pool_map(run, __name__, "worker_pairs", [(w, nw, run.seed, ppm, run.scratch) for w in range(nw)], procs=procs)
+                                                "forms with hash-picked spellings; plus %d alias-body cases: %d body variants x %d routings "
+                                                "x %d decorations x %d (position, neighbour) x 5 capture forms" % (
+                                                    ncases, len(TABLE), sum(1 for _ in body_cells()), len(BODY_VARIANTS),
+                                                    len(BODY_ROUTES), len(BODY_DECOS), len(BODY_POS)))
         run.extra["pairs_product"] = {"cases": sum(1 for _ in pair_cases()), "sampled_permille": ppm}
-        common.pool_map(run, __name__, "worker_malformed", [run.scratch], procs=1)
-        per = run.n(500, 28000)
-        ngw = 12 if not thorough else 16
-        common.pool_map(run, __name__, "worker_generated",
-                        [(common.worker_seed(run.seed, 50 + w), per, run.scratch) for w in range(ngw)], procs=min(ngw, procs))
     finally:
         _clear_immutable()
         clear_tree_flags(run.scratch)
+        _abandon_stuck_threads()
     run.assumptions += [
         "the terminal = fds 1 and 2 of the xonsh process with sys.stdout/sys.stderr as text wrappers over those fds; fd 0 = /dev/null",
         "line placement is compared as a multiset per place (order between different stages' lines on one sink is scheduling)"
@@ -1895,6 +2144,12 @@ def main(run):
         "circular merges (e>o together with o>e on one stage) and list-valued @() targets are not generated",
         "read-only targets are made with the immutable inode flag when running as root (mode bits do not bind root)",
         "lines on the terminal that are not tagged lines (xonsh's own messages) are counted as 'terminal-noise', not judged",
+        "alias bodies: every line an alias body emits (stream arguments, print(), commands, nested aliases) belongs to the stage's "
+        "stdout/stderr; `$[...]` inside a body (documented to stay on the terminal) and the stderr of `$()`/`!()` inside a body are not "
+        "generated; alias bodies are only generated with $THREAD_SUBPROCS=True (documented trade-off: without threads xonsh cannot "
+        "capture the commands a body runs); ExecAliases do not read the stage's stdin (no automatic redirection of stdin, documented)",
+        "lines of a stage that stands upstream of a stage ignoring its stdin are optional (SIGPIPE / EPIPE may cut the writer short), "
+        "they may never turn up in a wrong place; a replay whose symptom needs two threads to overlap gets three attempts",
         "a rejected command must have delivered nothing and must leave `>>`/`<` targets and unrelated files unchanged; that it may "
         "already have created an empty write target or truncated a `>` target is tolerated and counted (STRICT_UNTOUCHED=%s)" % STRICT_UNTOUCHED,
     ]
@@ -1910,6 +2165,7 @@ def replay(run, path):
     finally:
         _clear_immutable()
         os.chdir(common.VERIF)
+        _abandon_stuck_threads()
     if fail is None:
         print("replay: property holds on this case")
         return 0
